@@ -11,6 +11,7 @@ import (
 	"strings"
 	"sync"
 	"testing"
+	"time"
 	"unicode/utf8"
 
 	"github.com/IBM/sarama"
@@ -53,6 +54,11 @@ type Case struct {
 	Schema int    `json:"schema"` // 1 or 2
 	Topic  string `json:"topic"`
 	Msgs   []Msg  `json:"msgs"`
+	// LogSuccesses: the producer is configured with KafkaLogSuccesses (and the broker side returns
+	// acknowledgements); SlowUs: the broker side needs this long per message (back-pressure once
+	// more messages are outstanding than the producer's queues hold).
+	LogSuccesses bool `json:"log_successes,omitempty"`
+	SlowUs       int  `json:"slow_us,omitempty"`
 }
 
 // proto field numbers of flow.proto (identical in FlowType1 and FlowType2 for these), keyed by
@@ -158,13 +164,13 @@ func runCase(c Case) *ev.Failure {
 	} else {
 		conv, protoSchema = convtest.NewFlowType1Convertor(), func() proto.Message { return &protobuf.FlowType1{} }
 	}
-	kp, err := producer.NewKafkaProducer(producer.ProducerInput{KafkaVersion: sarama.DefaultVersion, KafkaTopic: c.Topic, ProtoSchemaConvertor: conv})
+	kp, err := producer.NewKafkaProducer(producer.ProducerInput{KafkaVersion: sarama.DefaultVersion, KafkaTopic: c.Topic, ProtoSchemaConvertor: conv, KafkaLogSuccesses: c.LogSuccesses})
 	if err != nil {
 		return ev.Failf("NewKafkaProducer: %v", err)
 	}
 	rep := &reporter{}
 	cfg := mocks.NewTestConfig()
-	cfg.Producer.Return.Successes = false
+	cfg.Producer.Return.Successes = c.LogSuccesses
 	mp := mocks.NewAsyncProducer(rep, cfg)
 	type pub struct {
 		topic string
@@ -180,6 +186,9 @@ func runCase(c Case) *ev.Failure {
 	}
 	for i := 0; i < total; i++ {
 		mp.ExpectInputWithMessageCheckerFunctionAndSucceed(func(pm *sarama.ProducerMessage) error {
+			if c.SlowUs > 0 {
+				time.Sleep(time.Duration(c.SlowUs) * time.Microsecond)
+			}
 			v, err := pm.Value.Encode()
 			mu.Lock()
 			got = append(got, pub{pm.Topic, v})
@@ -191,7 +200,7 @@ func runCase(c Case) *ev.Failure {
 	ch := make(chan *entities.Message)
 	done := make(chan struct{})
 	go func() { defer close(done); kp.PublishIPFIXMessages(ch) }()
-	for _, m := range c.Msgs {
+	for mi, m := range c.Msgs {
 		set := entities.NewSet(true)
 		if m.Tpl {
 			set.PrepareSet(entities.Template, 256)
@@ -217,10 +226,24 @@ func runCase(c Case) *ev.Failure {
 		msg.SetObsDomainID(m.Domain)
 		msg.SetExportAddress(m.Address)
 		msg.AddSet(set)
-		ch <- msg
+		select {
+		case ch <- msg:
+		case <-time.After(stuckLimit):
+			mu.Lock()
+			n := len(got)
+			mu.Unlock()
+			return ev.Failf("PublishIPFIXMessages stopped taking messages from its channel: %d of %d records were published when message %d could not be handed over for %v", n, total, mi, stuckLimit)
+		}
 	}
 	close(ch)
-	<-done
+	select {
+	case <-done:
+	case <-time.After(stuckLimit):
+		mu.Lock()
+		n := len(got)
+		mu.Unlock()
+		return ev.Failf("PublishIPFIXMessages did not return %v after its channel was closed: %d of %d records were published", stuckLimit, n, total)
+	}
 	closeErr := mp.Close()
 	// records carrying a string that is not valid UTF-8 cannot be expressed in proto3: they may be
 	// published or skipped, but every other record must still be published exactly once, in order
@@ -241,6 +264,7 @@ func runCase(c Case) *ev.Failure {
 	if invalid == 0 && (closeErr != nil || len(rep.errs) > 0) {
 		return ev.Failf("number of published Kafka messages differs from the number of data records (%d): %v %v", total, closeErr, rep.errs)
 	}
+	validTotal, validSeen := total-invalid, 0
 	sch := protoSchema()
 	kc := consumer.NewKafkaConsumer(consumer.ConsumerInput{KafkaProtoSchema: sch, MsgDelimitWithLen: true})
 	k := 0
@@ -252,11 +276,12 @@ func runCase(c Case) *ev.Failure {
 			where := fmt.Sprintf("message %d record %d", mi, ri)
 			if !validRecord(r) {
 				// skipped, or published: if the next publication carries this record's source port, take it
-				if k < len(got) && len(got)-k > remainingValid(c, mi, ri) {
+				if k < len(got) && len(got)-k > validTotal-validSeen {
 					k++
 				}
 				continue
 			}
+			validSeen++
 			if k >= len(got) {
 				return ev.Failf("%s: no Kafka message was published for this record (%d publications in all)", where, len(got))
 			}
@@ -342,6 +367,10 @@ func runCase(c Case) *ev.Failure {
 	return nil
 }
 
+// stuckLimit: a stream of at most a few thousand records takes milliseconds (seconds with a slow
+// broker side); a producer that makes no progress for this long is stuck.
+const stuckLimit = 20 * time.Second
+
 func validRecord(r []FieldVal) bool {
 	for _, fv := range r {
 		if s, ok := schema[fv.Name]; ok && s.kind == 's' && !utf8.Valid(fv.V.B) {
@@ -349,22 +378,6 @@ func validRecord(r []FieldVal) bool {
 		}
 	}
 	return true
-}
-
-// remainingValid counts the valid records after position (mi, ri).
-func remainingValid(c Case, mi, ri int) int {
-	n := 0
-	for i, m := range c.Msgs {
-		if m.Tpl || i < mi {
-			continue
-		}
-		for j, r := range m.Recs {
-			if (i > mi || j > ri) && validRecord(r) {
-				n++
-			}
-		}
-	}
-	return n
 }
 
 func genRecord(t *rapid.T) []FieldVal {
@@ -411,6 +424,11 @@ func genRecord(t *rapid.T) []FieldVal {
 
 func genCase(t *rapid.T) Case {
 	c := Case{Schema: rapid.IntRange(1, 2).Draw(t, "schema"), Topic: rapid.SampledFrom([]string{"ipfix", "flows.v1", "t"}).Draw(t, "topic")}
+	c.LogSuccesses = rapid.IntRange(0, 2).Draw(t, "log_successes") == 0
+	if rapid.IntRange(0, 59).Draw(t, "slow") == 0 {
+		c.SlowUs = rapid.SampledFrom([]int{50, 200}).Draw(t, "slow_us")
+	}
+	huge := false
 	for n := rapid.IntRange(1, 10).Draw(t, "n"); n > 0; n-- {
 		m := Msg{Seq: rapid.Uint32().Draw(t, "seq"), Time: rapid.Uint32().Draw(t, "time"), Domain: rapid.Uint32().Draw(t, "dom"),
 			Address: rapid.SampledFrom([]string{"10.0.0.1", "2001:db8::7", "::1", ""}).Draw(t, "addr")}
@@ -422,6 +440,16 @@ func genCase(t *rapid.T) Case {
 			if rapid.IntRange(0, 9).Draw(t, "many") == 0 {
 				k = rapid.IntRange(5, 20).Draw(t, "nrecmany")
 			}
+			if !huge && c.SlowUs == 0 && rapid.IntRange(0, 399).Draw(t, "huge") == 0 { // once per stream at most: more records than any queue holds
+				k, huge = rapid.IntRange(300, 900).Draw(t, "nrechuge"), true
+			}
+			if k >= 300 { // the huge message cycles through a few generated records
+				base := [][]FieldVal{genRecord(t), genRecord(t), genRecord(t)}
+				for j := 0; j < k; j++ {
+					m.Recs = append(m.Recs, base[j%3])
+				}
+				k = 0
+			}
 			for ; k > 0; k-- {
 				m.Recs = append(m.Recs, genRecord(t))
 			}
@@ -431,7 +459,14 @@ func genCase(t *rapid.T) Case {
 	return c
 }
 
+var timing = map[string]time.Duration{}
+
 func TestC19(t *testing.T) {
+	defer func() {
+		for k, v := range timing {
+			fmt.Println("timing", k, v)
+		}
+	}()
 	// every run: a message whose header fields and record values are all zero / empty (its protobuf
 	// body is empty, the payload is just the 4-byte length 0), in both schemas
 	for schemaNo := 1; schemaNo <= 2; schemaNo++ {
@@ -444,7 +479,28 @@ func TestC19(t *testing.T) {
 			}
 		}
 	}
-	ev.Rapid(t, rec, "streams", rec.Scale(4000, 2000000), genCase, func(c Case) *ev.Failure {
+	// every run: one message with 700 records (more than the producer's and the broker side's queues
+	// hold together), with and without acknowledgements, with a fast and a slow broker side
+	big := Msg{Seq: 7, Time: 1700000000, Domain: 3, Address: "10.0.0.1"}
+	for k := 0; k < 700; k++ {
+		big.Recs = append(big.Recs, []FieldVal{{Name: "sourceTransportPort", V: ref.Value{U: uint64(1 + k%60000)}}, {Name: "packetTotalCount", V: ref.Value{U: uint64(k) * 1000}}})
+	}
+	bigCases := []Case{{Schema: 1, Topic: "t", Msgs: []Msg{big}, LogSuccesses: true}, {Schema: 2, Topic: "t", Msgs: []Msg{big, big}, SlowUs: 500}, {Schema: 1, Topic: "t", Msgs: []Msg{big}, LogSuccesses: true, SlowUs: 200}}
+	bigFails := make([]*ev.Failure, len(bigCases))
+	var bw sync.WaitGroup
+	for k := range bigCases {
+		bw.Add(1)
+		go func(k int) { defer bw.Done(); bigFails[k] = runCase(bigCases[k]) }(k)
+	}
+	bw.Wait()
+	for k, c := range bigCases {
+		rec.Case(ev.Hash(c), true, "more_records_than_the_queues_hold")
+		if bigFails[k] != nil {
+			rec.Violation("preamble", c, bigFails[k].Msg)
+			t.Fatalf("%s", bigFails[k].Msg)
+		}
+	}
+	ev.Rapid(t, rec, "streams", rec.Scale(4000, 1000000), genCase, func(c Case) *ev.Failure {
 		recs, rich, tpl, empty := 0, false, false, false
 		for _, m := range c.Msgs {
 			if m.Tpl {
@@ -471,10 +527,20 @@ func TestC19(t *testing.T) {
 				cl = append(cl, k)
 			}
 		}
+		for k, b := range map[string]bool{"producer_logs_successes": c.LogSuccesses, "slow_broker_side": c.SlowUs > 0, "message_with_300_or_more_records": recs >= 300} {
+			if b {
+				cl = append(cl, k)
+			}
+		}
 		rec.Case(ev.Hash(c), recs >= 2 && rich, append(cl, fmt.Sprintf("schema_%d", c.Schema))...)
 		if len(c.Msgs) <= 2 && recs <= 2 {
 			rec.Sample("stream", c)
 		}
-		return runCase(c)
+		t0 := time.Now()
+		f := runCase(c)
+		if os.Getenv("C19_TIMING") != "" {
+			timing[fmt.Sprintf("log=%v slow=%v huge=%v", c.LogSuccesses, c.SlowUs > 0, recs >= 300)] += time.Since(t0)
+		}
+		return f
 	})
 }
